@@ -116,7 +116,9 @@ def gen_one(rng, i, tier):
         sdt = rng.choice(["u1", "u1", "u2", "i8"])
         vals = sorted(set(pos + neg))
         step_ = max(1, (250 if sdt == "u1" else 60000) // max(1, len(vals)))
-        rank = {v: float(k * min(step_, 7) + (0 if k else 0)) for k, v in enumerate(vals)}
+        rank = {v: float(k * min(step_, 7)) for k, v in enumerate(vals)}
+        if sdt == "u1" and max(rank.values(), default=0.0) > 255:
+            sdt = "u2"
         pos, neg = [rank[x] for x in pos], [rank[x] for x in neg]
     ep, en = _easy(rng, max(npos, 1)), _easy(rng, max(nneg, 1))
     sc, ec = rng.choice(gen.CFGS)
